@@ -205,6 +205,7 @@ func runByz(e *Env) {
 	}
 	seen := map[string]int{}
 	hookOn := true
+	byzDiscarded = 0
 	cl.FrameHook = func(sc *node.SConn, stream int, label string, frame []byte) ([]byte, bool) {
 		if !hookOn {
 			return frame, false
@@ -222,6 +223,11 @@ func runByz(e *Env) {
 			}
 			m.fired = true
 			out, cls, desc := byzMutate(tp, sc, m.kind, frame)
+			if len(out) < len(frame) {
+				// the node built this frame (the simulator's own allocations, inside the
+				// bubble) and the mutation then put a shorter one in its place
+				byzDiscarded += int64(len(frame) - len(out))
+			}
 			k.Fault("byz." + desc)
 			k.Rec("mutate %s %s -> %s (%d -> %d bytes, close=%v)", sc.C.Name, label, desc, len(frame), len(out), cls)
 			return out, cls
@@ -626,6 +632,10 @@ func runByz(e *Env) {
 	byzFinish(k, cl, sess, &ms0, compress)
 }
 
+// byzDiscarded: bytes of frames the node built and a mutation replaced by something shorter
+// (root goroutine only; reset at the start of every run).
+var byzDiscarded int64
+
 func byzFinish(k *kernel.Kernel, cl *node.Cluster, sess *gocql.Session, ms0 *runtime.MemStats, compressedRun bool) {
 	if sess != nil {
 		closed := make(chan struct{})
@@ -668,7 +678,7 @@ func byzFinish(k *kernel.Kernel, cl *node.Cluster, sess *gocql.Session, ms0 *run
 	for _, c := range cl.Net.Conns() {
 		sent += c.SentBytes()
 	}
-	if grown := ms1.TotalAlloc - ms0.TotalAlloc; grown > uint64(64<<20+16*sent) && k.Violation() == nil && !headerLied(k) && !compressedRun {
+	if grown := ms1.TotalAlloc - ms0.TotalAlloc; grown > uint64(64<<20+16*(sent+byzDiscarded)) && k.Violation() == nil && !headerLied(k) && !compressedRun {
 		k.Violate("C05", "C05/wild-allocation", "the run allocated %d MiB in total although the node sent only %d KiB, in uncompressed frames with truthful headers", grown>>20, sent>>10)
 	}
 }
